@@ -78,6 +78,11 @@ pub enum OpA {
     Trade { inst: usize, t: i64, price: i64 },
     L1 { inst: usize, t: i64, bid: i64, ask: i64 },
     Full { items: Vec<FullItem> },
+    /// a fill reported on the account stream that names the exchange order id of order `ord`
+    /// (exchanges report the order update and the trade separately): not an order report
+    AcctFill { ord: usize, t: i64, qty: i64 },
+    /// a liquidation print on the market stream: not a trade, not a top of book
+    Liq { inst: usize, t: i64, price: i64 },
 }
 
 #[derive(Clone, Debug, Serialize, Deserialize)]
@@ -85,6 +90,19 @@ pub struct OrdDef {
     pub inst: usize,
     pub qty: i64,
     pub buy: bool,
+    /// time in force carried by the exchange's reports: 0 GTC, 1 good-until-end-of-day, 2 IOC, 3 FOK
+    #[serde(default)]
+    pub tif: u8,
+}
+
+fn tif_of(code: u8) -> barter_execution::order::TimeInForce {
+    use barter_execution::order::TimeInForce as T;
+    match code % 4 {
+        0 => T::GoodUntilCancelled { post_only: false },
+        1 => T::GoodUntilEndOfDay,
+        2 => T::ImmediateOrCancel,
+        _ => T::FillOrKill,
+    }
 }
 
 #[derive(Clone, Debug, Serialize, Deserialize)]
@@ -317,16 +335,9 @@ const PRICE: i64 = 100;
 fn snap_event(w: &World, sc: &ScenarioA, ord: usize, st: &SnapSt) -> AccountEvent {
     let def = &sc.orders[ord];
     let ex = w.inst_ex[def.inst];
-    ev_order_snapshot(
-        ex,
-        order_snapshot(
-            okey(ex, def.inst, &cid(ord)),
-            def.buy,
-            dec(PRICE),
-            dec(def.qty),
-            order_state(ord, st),
-        ),
-    )
+    let mut o = order_snapshot(okey(ex, def.inst, &cid(ord)), def.buy, dec(PRICE), dec(def.qty), order_state(ord, st));
+    o.time_in_force = tif_of(def.tif);
+    ev_order_snapshot(ex, o)
 }
 
 fn full_event(w: &World, sc: &ScenarioA, items: &[FullItem]) -> AccountEvent {
@@ -351,16 +362,9 @@ fn full_event(w: &World, sc: &ScenarioA, items: &[FullItem]) -> AccountEvent {
                 if k == 0 {
                     ex = oex;
                 }
-                orders.push((
-                    def.inst,
-                    order_snapshot(
-                        okey(oex, def.inst, &cid(*ord)),
-                        def.buy,
-                        dec(PRICE),
-                        dec(def.qty),
-                        order_state(*ord, st),
-                    ),
-                ));
+                let mut o = order_snapshot(okey(oex, def.inst, &cid(*ord)), def.buy, dec(PRICE), dec(def.qty), order_state(*ord, st));
+                o.time_in_force = tif_of(def.tif);
+                orders.push((def.inst, o));
             }
         }
     }
@@ -373,6 +377,8 @@ struct Touched {
     orders: Vec<(usize, usize)>,
     assets: Vec<usize>,
     data: Vec<usize>,
+    /// instruments whose position / statistics a fill may change
+    positions: Vec<usize>,
 }
 
 fn touched(sc: &ScenarioA, op: &OpA) -> Touched {
@@ -383,7 +389,16 @@ fn touched(sc: &ScenarioA, op: &OpA) -> Touched {
         | OpA::Snap { ord, .. }
         | OpA::CancelResp { ord, .. } => t.orders.push((sc.orders[*ord].inst, *ord)),
         OpA::Bal { asset, .. } => t.assets.push(*asset),
-        OpA::Trade { inst, .. } | OpA::L1 { inst, .. } => t.data.push(*inst),
+        OpA::Trade { inst, .. } | OpA::L1 { inst, .. } => {
+            t.data.push(*inst);
+            // (a priced market event re-marks an open position of that instrument)
+            t.positions.push(*inst);
+        }
+        // a fill changes the instrument's position, nothing about any order; a liquidation print
+        // changes nothing at all
+        OpA::AcctFill { ord, .. } => t.positions.push(sc.orders[*ord].inst),
+        // (any market event of an instrument re-marks its open position at the current price)
+        OpA::Liq { inst, .. } => t.positions.push(*inst),
         OpA::Full { items } => {
             for it in items {
                 match it {
@@ -412,6 +427,11 @@ fn mask(s: &mut St, t: &Touched) {
     }
     for i in &t.data {
         s.instruments.instrument_index_mut(&InstrumentIndex(*i)).data = Default::default();
+    }
+    for i in &t.positions {
+        let ist = s.instruments.instrument_index_mut(&InstrumentIndex(*i));
+        ist.position = Default::default();
+        ist.tear_sheet = barter::statistic::summary::instrument::TearSheetGenerator::init(ts(0));
     }
 }
 
@@ -487,6 +507,29 @@ fn apply(state: &mut St, w: &World, sc: &ScenarioA, op: &OpA) {
             let ev = full_event(w, sc, items);
             state.update_from_account(&ev);
         }
+        OpA::AcctFill { ord, t, qty } => {
+            let def = &sc.orders[*ord];
+            let ex = w.inst_ex[def.inst];
+            // names the exchange order id the order's reports use most often
+            let ev = ev_trade(ex, def.inst, &format!("f{ord}_{t}"), &oid(*ord, 0), def.buy, dec(PRICE), dec(*qty), dec(0), *t);
+            state.update_from_account(&ev);
+        }
+        OpA::Liq { inst, t, price } => {
+            let ex = w.instruments.instruments()[*inst].value.exchange.value;
+            let ev = barter_data::event::MarketEvent {
+                time_exchange: ts(*t),
+                time_received: ts(*t + 3_600_000),
+                exchange: ex,
+                instrument: InstrumentIndex(*inst),
+                kind: barter_data::event::DataKind::Liquidation(barter_data::subscription::liquidation::Liquidation {
+                    side: barter_instrument::Side::Buy,
+                    price: *price as f64,
+                    quantity: 1.0,
+                    time: ts(*t),
+                }),
+            };
+            state.update_from_market(&ev);
+        }
     }
 }
 
@@ -510,6 +553,8 @@ fn op_tag(op: &OpA) -> String {
         OpA::Bal { asset, .. } => format!("b{asset}"),
         OpA::Trade { inst, .. } => format!("t{inst}"),
         OpA::L1 { inst, .. } => format!("l{inst}"),
+        OpA::AcctFill { ord, .. } => format!("af{ord}"),
+        OpA::Liq { inst, .. } => format!("q{inst}"),
         OpA::Full { items } => {
             let mut s = String::from("full[");
             for it in items {
@@ -1318,6 +1363,7 @@ fn plan_a(prop: PropA, rng: &mut Rng, sub: usize) -> ScenarioA {
             inst: rng.usize(w.n_inst()),
             qty: 1 + rng.range(0, 2),
             buy: rng.chance(1, 2),
+            tif: *rng.pick(&[0u8, 0, 0, 1, 2, 3]),
         })
         .collect();
     let init_bal: Vec<Option<i64>> = (0..w.n_assets())
@@ -1754,6 +1800,18 @@ fn plan_a(prop: PropA, rng: &mut Rng, sub: usize) -> ScenarioA {
         }
     }
 
+    // fills that name a tracked order's exchange id, and liquidation prints: neither is an order
+    // report, a trade print or a top of book
+    for _ in 0..rng.usize(3) {
+        if n_ord > 0 {
+            seq += 1;
+            msgs.push((rng.range(0, horizon), seq + 2_000_000, OpA::AcctFill { ord: rng.usize(n_ord), t: rng.range(0, 300), qty: 1 }, None));
+        }
+    }
+    for _ in 0..rng.usize(3) {
+        seq += 1;
+        msgs.push((rng.range(0, horizon), seq + 2_000_000, OpA::Liq { inst: rng.usize(w.n_inst()), t: rng.range(0, 300), price: rng.range(1, 500) }, None));
+    }
     msgs.sort_by_key(|m| (m.0, m.1));
     // dropped messages never arrive; the *next* delivered message carries the 'drop fired' tag
     let mut ops: Vec<(OpA, Option<String>)> = Vec::new();
